@@ -48,6 +48,10 @@ func scripted() []scriptedProg {
 		// a function called by the loader (LoadNEFMethod with an _initialize offset) initialises the static slot
 		{name: "init-on-load", hist: []MStep{ini, prim, st("load", 1, 0, "rv1"), st("call", 0, 1, ""), st("initsslot", 2, 0, ""), prim,
 			st("sts", 2, 0, ""), st("ret", 0, 0, ""), st("lds", 2, 0, ""), drop, st("ret", 1, 1, "rv1"), drop, halt}},
+		// a large static slot and an internal frame of the callee are unwound to the caller, which then fills the VM item by
+		// item up to the limit: if unwinding released too much, more than 2048 items are reachable before the VM stops
+		{name: "limit-after-unwind", noInit: true, hist: []MStep{ini, try, st("load", 0, 0, "rv0"), st("initsslot", 200, 0, ""),
+			st("call", 0, 1, ""), prim, st("throw", 2, 1, ""), drop, st("fill", 1, 0, "")}},
 		{name: "init-on-load-unwound", hist: []MStep{ini, try, st("load", 0, 0, "cc0"), st("call", 0, 1, ""), st("initsslot", 2, 0, ""),
 			prim, st("throw", 2, 1, ""), drop, halt}},
 	}
